@@ -29,8 +29,8 @@ RULE = ("(i) all derivations of the documented grammar with up to N tokens "
 EXPLANATION = ("exhaustive enumeration; reference = independent recogniser + "
                "denotation (set of observed paths with notify flags) written "
                "from the manual's tables")
-BOUNDS = {"quick": "derivations <= 8 tokens; raw strings <= 5 symbols",
-          "thorough": "derivations <= 10 tokens; raw strings <= 6 symbols"}
+BOUNDS = {"quick": "derivations <= 9 tokens; raw strings <= 5 symbols",
+          "thorough": "derivations <= 11 tokens; raw strings <= 6 symbols"}
 ASSUMPTIONS = ["names are three representatives (a, b, items)"]
 MIN_OUTCOMES = {t: ["accepted-meaning-ok", "spelling-equal",
                     "remove-by-text-ok", "raw-accepted", "raw-rejected"]
@@ -247,6 +247,15 @@ def impl(text):
     try:
         expr = parsing.parse.__wrapped__(text)
     except ValueError as e:
+        cs = getattr(parsing.compile_str, "__wrapped__", parsing.compile_str)
+        try:
+            cs(text)
+        except ValueError:
+            pass
+        except BaseException as e2:
+            return ("exc", type(e2).__name__ + " in compile_str")
+        else:
+            return ("exc", "compile_str accepts what parse rejects")
         return ("ValueError", "parse: " + str(e)[:80])
     except BaseException as e:
         return ("exc", type(e).__name__ + " in parse")
@@ -256,6 +265,16 @@ def impl(text):
         return ("ValueError", "compile: " + str(e)[:80])
     except BaseException as e:
         return ("exc", type(e).__name__ + " in compile")
+    # the public one-step entry point must decide exactly the same
+    cs = getattr(parsing.compile_str, "__wrapped__", parsing.compile_str)
+    try:
+        g2 = cs(text)
+    except ValueError as e:
+        return ("exc", "compile_str rejects what parse+compile accept")
+    except BaseException as e:
+        return ("exc", type(e).__name__ + " in compile_str")
+    if set(g2) != set(graphs):
+        return ("exc", "compile_str gives different graphs than parse")
     return ("ok", graph_paths(graphs), expr, graphs)
 
 
@@ -401,7 +420,7 @@ def shards(tier):
 
 def run_shard(ctx, shard, tier):
     if shard["part"] == "deriv":
-        maxtok = 8 if tier == "quick" else 10
+        maxtok = 9 if tier == "quick" else 11
         ders = derivations(maxtok)[shard["chunk"]::shard["of"]]
         for toks in ders:
             s = "".join(toks)
